@@ -204,3 +204,44 @@ pub fn channel_value_to_self_msat<CM: crate::ln::channelmanager::AChannelManager
 	let chan = peer_state.channel_by_id.get(channel_id)?.as_funded()?;
 	Some(chan.funding.get_value_to_self_msat())
 }
+
+/// BOLT 12 merkle root / tagged digest (`offers::merkle`) and stateless metadata verification
+/// (`offers::signer`), crate-private, for the C18 differential.
+pub mod offers {
+	#![allow(missing_docs)]
+	use crate::ln::inbound_payment::ExpandedKey;
+	use bitcoin::secp256k1::PublicKey;
+
+	/// `offers::merkle::root_hash` over every record of a well-formed TLV stream (signature
+	/// records 240..=1000 are skipped by the function itself).
+	pub fn merkle_root(bytes: &[u8]) -> [u8; 32] {
+		use bitcoin::hashes::Hash;
+		crate::offers::merkle::verif_root_hash(bytes).to_byte_array()
+	}
+
+	/// Digest of `TaggedHash::from_valid_tlv_stream_bytes(tag, bytes)`.
+	pub fn tagged_digest(tag: &'static str, bytes: &[u8]) -> [u8; 32] {
+		crate::offers::merkle::verif_tagged_digest(tag, bytes)
+	}
+
+	/// The HMAC key of `ExpandedKey::hmac_for_offer`.
+	pub fn offers_base_key(key: &ExpandedKey) -> [u8; 32] {
+		key.verif_offers_base_key()
+	}
+
+	/// `signer::verify_recipient_metadata` / `signer::verify_payer_metadata_inner` over all
+	/// records of `tlv_bytes`; `Ok(Some(secret))` when signing keys were derived.
+	pub fn verify_metadata(
+		payer: bool, metadata: &[u8], key: &ExpandedKey, iv_bytes: &[u8; 16],
+		signing_pubkey: PublicKey, tlv_bytes: &[u8],
+	) -> Result<Option<[u8; 32]>, ()> {
+		crate::offers::signer::verif_verify_metadata(
+			payer,
+			metadata,
+			key,
+			iv_bytes,
+			signing_pubkey,
+			tlv_bytes,
+		)
+	}
+}
